@@ -53,6 +53,9 @@ RAW_SNIPPETS = [
     # a character constant against an identifier of the same spelling (L is an unknown identifier -> 0)
     ["#ifdef A", "#define TAG 'L'", "#else", "#define TAG L", "#endif", "#if TAG == 'L'", "int raw@_a;", "#else",
      "int raw@_b;", "#endif", "#if '0' == 0 || TAG == 76", "int raw@_c;", "#endif", "#undef TAG"],
+    # GNU named variadic parameter
+    ["#define SUMN(x, rest...) (x + rest + 0)", "#if SUMN(V + 0, 2) > 2", "int raw@_a;", "#else", "int raw@_b;", "#endif",
+     "#if SUMN(W + 0, 1) == 1 || defined(C)", "int raw@_c;", "#endif", "#undef SUMN"],
     # nested use of a function-like and an object-like macro
     ["#define TWICE(x) ((x) + (x))", "#define BASE (V + 1)", "#if TWICE(BASE) > 4", "int raw@_a;", "#endif",
      "#if TWICE(TWICE(W)) == 8", "int raw@_b;", "#endif", "#undef BASE", "#undef TWICE"],
@@ -99,11 +102,13 @@ defines = ["B"]
 [[compiler.ucc.passes]]
 name = "a2"
 defines = ["C"]
+%(inc_a)s
 
 [[compiler.ucc.passes]]
 name = "a3"
 defines = ["V=2"]
 modes = ["mx", "my"]
+%(inc_b)s
 
 [[compiler.ucc.passes]]
 name = "f1"
@@ -116,6 +121,7 @@ modes = ["my", "mx"]
 
 [compiler.ucc2]
 alias_of = "ucc"
+%(gcc_ext)s
 '''
 
 
@@ -123,7 +129,17 @@ def apply_user_compiler(world, rs):
     """Give the world a ./.cbi/config with a user-defined multi-pass compiler and let some commands use it."""
     from .world import entry_argv
 
-    world["cbi_config"] = UCC_CONFIG % {"override": "override = true" if rs.random() < 0.3 else ""}
+    hs = sorted(p for p in world["files"] if p.endswith((".h", ".hpp")) and "items" in world["files"][p])
+    inc_a = inc_b = ""
+    if len(hs) >= 2 and rs.random() < 0.6:
+        a, b = rs.sample(hs, 2)
+        # two passes that each force-include a header of their own
+        inc_a = 'include_files = ["%s/%s"]' % (TOP, a)
+        inc_b = 'include_files = ["%s/%s"]' % (TOP, b)
+    world["cbi_config"] = UCC_CONFIG % {"override": "override = true" if rs.random() < 0.3 else "",
+                                        "inc_a": inc_a, "inc_b": inc_b,
+                                        # the user file may also EXTEND a packaged compiler
+                                        "gcc_ext": '\n[compiler.gcc]\noptions = ["-DC", "-DW=2"]\n' if rs.random() < 0.5 else ""}
     for p in world["platforms"]:
         for e in p["entries"]:
             if rs.random() < 0.6:
@@ -176,6 +192,7 @@ def draw_cfg(r, profile):
         "p_decoy_dir": r.choice([0.0, 0.2, 0.4]),
         "p_undef_hdr": r.choice([0.0, 0.15, 0.3]),
         "p_eol": r.choice([0.0, 0.0, 0.15, 0.4]),
+        "p_coincide": r.choice([0.0, 0.15, 0.3]),
         "p_variant_twin": r.choice([0.0, 0.2, 0.5]),
         "hdr_name_style": r.choice(["plain", "plain", "odd"]),
         "p_forced_rel": r.choice([0.0, 0.5]),
@@ -323,6 +340,12 @@ class Gen:
             sp = r.choice(h["dirsp"])
         if form == "m":
             val = f'"{sp}"' if r.random() < 0.6 else f"<{sp}>"
+            if "/" in sp and r.random() < 0.3:
+                # the replacement list itself contains a macro: <DIRMACRO/rest> must be rescanned
+                first, rest = sp.split("/", 1)
+                self.uid += 1
+                dm = f"DIRM_{self.uid}"
+                return [["define", dm, first], ["undef", "HDR"], ["define", "HDR", f"<{dm}/{rest}>"], ["include", "m", "HDR"]]
             if r.random() < 0.35:
                 # platform-specific header selection: which header (and which form) depends on a -D flag
                 other = r.choice(headers)["name"] if headers else sp
@@ -437,6 +460,8 @@ class Gen:
                 rel = os.path.relpath(pl, ROOT)
                 if rel != "." and not rel.startswith(".."):
                     dirsp.append(f"{rel}/{nm}")
+                    if "/" in rel:
+                        dirsp.append(f"{rel.split('/')[-1]}/{nm}")     # e.g. "inc/h0.h": resolvable from d1 or via -I d1
             hdrs.append({"name": nm, "idx": i, "paths": [os.path.join(pl, nm) for pl in places],
                          "dirsp": dirsp, "missing_alias": f"nowhere/{nm}"})
         # bodies, highest index first so that includes only point "forward" (acyclic)
@@ -525,6 +550,23 @@ class Gen:
             files[tw] = {"lang": "c", "items": [["include", "q", "cfgx.h"],
                                                 ["cond", [["ifdef", "S0", [["code", 1]]], ["else", None, [["code", 1]]]]]]}
             srcs.append(tw)
+        coin = None
+        if hdrs and r.random() < cfg.get("p_coincide", 0.0):
+            # two quote includes whose candidates beside the includer coincide ("inc/h" from d1, "h" from d1/inc),
+            # that candidate being absent, while one -I directory has both spellings as different files
+            h = r.choice(hdrs)
+            nm = h["name"]
+            local = os.path.join(ROOT, "d1", "inc", nm)
+            if local not in files and nm.endswith((".h", ".hpp")):
+                for pth in (os.path.join(ROOT, "d2", "inc", nm), os.path.join(ROOT, "d2", nm)):
+                    if pth not in files:
+                        files[pth] = {"lang": "c", "items": [["code", r.randint(1, 2)], ["define", r.choice(SRC_MACROS), None]]}
+                        files[pth]["items"][1][2] = self.src_vals[files[pth]["items"][1][1]]
+                files[os.path.join(ROOT, "d1", "inc", "helper_c.h")] = {"lang": "c", "items": [["code", 1], ["include", "q", nm]]}
+                two = [["include", "q", "inc/" + nm], ["include", "q", "inc/helper_c.h"]]
+                r.shuffle(two)
+                coin = os.path.join(ROOT, "d1", "coin.c")
+                files[coin] = {"lang": "c", "items": two + [["cond", [["ifdef", "S0", [["code", 1]]], ["else", None, [["code", 1]]]]]]}
         # a file nobody compiles or includes
         if r.random() < 0.3:
             files[os.path.join(ROOT, "d2", "unused.c")] = {"lang": "c", "items": [["code", 2]] + self.items(0, [], [3])}
@@ -565,6 +607,9 @@ class Gen:
             if not ents and r.random() < 0.8:
                 ents.append(self.entry(r.choice(srcs), inc_pool, hdrs))
             ents = self.add_db_faults(ents)
+            if coin and (pi == 0 or r.random() < 0.5):
+                ents.append(self.spell_entry({"src": coin, "defs": [], "incs": [["I", os.path.join(ROOT, "d2")]], "forced": [],
+                                              "compiler": "gcc", "extra": []}, alias=getattr(self, "alias", None)))
             if cfg.get("shared_db") and plats and r.random() < 0.5:
                 # two platforms that name one and the same database file
                 plats.append({"name": name, "db": plats[-1]["db"], "entries": [dict(e) for e in plats[-1]["entries"]]})
@@ -672,6 +717,9 @@ class Gen:
             extra = extra + ["-fopenmp"]     # a known flag for the built-in compilers, an unknown one for others
         if extra and r.random() < 0.15:
             extra = extra + [extra[0]]       # the same flag twice
+        if cfg["profile"] != "c18" and r.random() < 0.12:
+            # what CMake and auto-dependency Makefiles add to every compile command
+            extra = extra + r.choice([["-MD"], ["-MMD"], [["-MD"], ["-MT", "out.o"], ["-MF", "out.o.d"]]])
         if cfg.get("builtin_pass_flags") and r.random() < 0.5:
             # pass/mode selecting flags of the built-in compiler definitions (model-free engines only)
             base = os.path.basename(comp)
@@ -759,6 +807,9 @@ class Gen:
                 links.append({"path": lp, "target": os.path.relpath(f, od), "kind": "xfile"})
                 if f not in file_links or r.random() < 0.5:
                     file_links[f] = lp
+        if r.random() < 0.3:
+            files[os.path.join(ROOT, "d2", "config.h.in")] = {"lang": "c", "text": "#define CONFIGURED @VALUE@\nint tmpl;\n"}
+            links.append({"path": os.path.join(ROOT, "d2", "config_gen.h"), "target": "config.h.in", "kind": "nonsrc_target"})
         if r.random() < 0.4:
             links.append({"path": os.path.join(ROOT, "d2", "dangling.c"), "target": "nothing_here.c", "kind": "dangling"})
         if r.random() < 0.4:
@@ -952,7 +1003,7 @@ class Gen:
                 self.uid += 1
                 if kind == "missing_entry":
                     e = {"file": os.path.join(TOP, ROOT, f"gen_missing_{self.uid}.c"),
-                         "arguments": ["gcc", "-DA", "-c", f"gen_missing_{self.uid}.c"]}
+                         "arguments": ["gcc", "-DA"] + r.choice([[], [], ["-g3"], ["-ggdb"]]) + ["-c", f"gen_missing_{self.uid}.c"]}
                     k2 = r.random()
                     if k2 < 0.4:
                         e = {"file": f"d1/gen_missing_{self.uid}.c",
